@@ -19,7 +19,7 @@ Not decided: races between refill and callers as such; server behaviour.
 from ..inline import inline_view
 from ..mir import AnchorLost
 from ..dataflow import DisjFlow
-from ..util import enum_variant_of_operand, df_of, fn_short, in_set, operand_path, path_last, backward_slice, field_writers, callers_keys, switch_on, switch_edges, yields, _rv_locals
+from ..util import dj_of, enum_variant_of_operand, df_of, fn_short, in_set, operand_path, path_last, backward_slice, field_writers, callers_keys, switch_on, switch_edges, yields, _rv_locals
 
 P = "scylla::network::connection_pool::"
 VK = "scylla::network::connection::VerifiedKeyspaceName"
@@ -286,9 +286,36 @@ def r5(ctx, facts):
     r.instance("use-result-verified", len(uq) == 1, "Connection::use_keyspace must verify the response", ub.span)
 
 
+def r6(ctx, facts):
+    r = ctx.rule("R6", "a node forwards USE to its pool whenever it has one (connected or not: the pool records the keyspace for later connections)", floor=2)
+    b = facts.one(r"^scylla::cluster::node::Node::use_keyspace::\{closure#0\}$")
+    df = df_of(b, facts)
+    calls = b.calls_to("NodeConnectionPool::use_keyspace")
+    r.instance("node-calls-pool", len(calls) >= 1, "Node::use_keyspace must call NodeConnectionPool::use_keyspace", b.span)
+    if not calls:
+        return
+    dj = dj_of(b, facts)
+    bad = []
+    for bb in sorted(b.live_blocks):
+        t = b.term(bb)
+        if t[0] != "switch":
+            continue
+        e = df.expr_of_operand(t[1])
+        if e[0] == "disc" and e[1][1][-1:] == ("pool",):
+            edges, other = switch_edges(b, bb)
+            some_tg = edges.get(1, other)
+            reach = dj.feasible_reach_edge(bb, some_tg, removed_nodes=[c.bb for c in calls])
+            if reach & set(b.exits):
+                bad.append(bb)
+            r.instance("pool-present-implies-forwarded", not (reach & set(b.exits)),
+                       "with a pool present, Node::use_keyspace can return without telling the pool (e.g. because it has no open connection): the pool would publish later connections without the keyspace", b.term_span(bb))
+    if not any(True for _ in bad) and not any(i["key"].endswith("pool-present-implies-forwarded") for i in r.instances):
+        r.fail("pool-present-implies-forwarded", "Node::use_keyspace no longer branches on self.pool", b.span)
+
+
 def check(ctx):
     facts = inline_view(ctx.facts("default"))
-    for fn in (r1, r2, r3, r4, r5):
+    for fn in (r1, r2, r3, r4, r5, r6):
         try:
             fn(ctx, facts)
         except AnchorLost as ex:
